@@ -90,6 +90,11 @@ package scheduler
 
 // ghost: a stage goroutine has been created for the stage (ownership of its status passed to that goroutine)
 //@ ghost spawned map[*Stage]bool
+// ghost: the stage's task (or nested pipeline) returned an error
+//@ ghost failed map[*Stage]bool
+// ghost counters of one scheduling pass (C04): stages found ready / stage goroutines created
+//@ ghost readyCount int
+//@ ghost spawnCount int
 
 // wfS: every node is non-nil and every recorded dependency names a node (no dangling reference, C18)
 //@ pred wfS(p *ExecutionGraph) := p != nil && p.nodes != nil && (forall n string :: n in p.nodes ==> p.nodes[n] != nil && p.nodes[n].Name == n) && (forall n string, j int :: n in p.nodes && 0 <= j && j < len(p.to[n]) ==> p.to[n][j] in p.nodes)
@@ -146,12 +151,18 @@ package scheduler
 //@   modifies *
 //@   ensures #C03.quiescent s.cancelled == 1 || (forall n string :: n in g.nodes ==> terminal(g.nodes[n]))
 //@   loop 1 "!s.isDone(g)"
+//@     invariant #C04.spawn-all readyCount - old(readyCount) == spawnCount - old(spawnCount)
 //@     invariant #same s == s0 && g == g0 && s != nil && s.taskRunner != nil && wfS(g) && depsAre(g) && hasWork(g) && nestedSchedulable(g)
 //@     invariant #J forall n string :: n in g.nodes && spawned[g.nodes[n]] ==> g.nodes[n].Status != StatusWaiting
 //@   loop 2 "range g.Nodes()"
+//@     invariant #C04.spawn-all readyCount - old(readyCount) == spawnCount - old(spawnCount)
 //@     invariant #same s == s0 && g == g0 && s != nil && s.taskRunner != nil && wfS(g) && depsAre(g) && hasWork(g) && nestedSchedulable(g)
 //@     invariant #J forall n string :: n in g.nodes && spawned[g.nodes[n]] ==> g.nodes[n].Status != StatusWaiting
+//@   effect no awaits-task in loop 1 except Cancel
+//@   callsite checkStatus
+//@     ghost readyCount = readyCount + (result ? 1 : 0)
 //@   callsite go Schedule$2
+//@     ghost spawnCount = spawnCount + 1
 //@     assumepre nestedSchedulable(g) && stage.Pipeline != nil ==> schedulable(stage.Pipeline)
 //@     requires #C03.first-spawn !spawned[stage]
 //@     ghostpre spawned[stage] = true
@@ -164,6 +175,12 @@ package scheduler
 //@   requires #has-work stage.Pipeline != nil || stage.Task != nil
 //@   owns x *Stage :: x == stage
 //@   modifies *
+//@   ensures #C02.error-recorded failed[stage] && !stage.AllowFailure ==> stage.Status == StatusError && g.error != nil
+//@   ensures #C02.done-otherwise !(failed[stage] && !stage.AllowFailure) ==> stage.Status == StatusDone
+//@   effect no may-block before runStage
+//@   callsite runStage
+//@     requires #C03.runs-once calls(runStage) == 0
+//@     ghost failed[stage] = (result != nil)
 
 //@ func (*Scheduler).runStage
 //@   requires s != nil && s.taskRunner != nil && stage != nil
@@ -172,5 +189,6 @@ package scheduler
 //@   requires #has-work stage.Pipeline != nil || stage.Task != nil
 //@   modifies *
 //@   ensures #own-status-untouched stage.Status == old(stage.Status)
+//@   effect no may-block before Run
 //@   callsite Schedule
 //@     assume stage.Status == old(stage.Status) // a stage is not a node of the pipeline it includes (see known finding: pipeline inclusion cycles)
